@@ -19,6 +19,7 @@ import (
 	"fmt"
 	"io"
 	"os"
+	"os/signal"
 	"path/filepath"
 	"runtime"
 	"sort"
@@ -26,6 +27,7 @@ import (
 	"strings"
 	"sync"
 	"sync/atomic"
+	"syscall"
 	"time"
 
 	"shanhu.io/g/errcode"
@@ -316,7 +318,7 @@ func (c *ctx) fail(key, desc string) {
 		switch strings.Fields(last)[0] {
 		case "ck", "cknew", "hashrd":
 			ops = []string{last}
-		case "create", "conc", "open", "has", "put", "get":
+		case "create", "createw", "conc", "open", "has", "put", "get":
 			if n > 2 && c.reproduces(key, []string{"reset", last}) {
 				ops = []string{"reset", last}
 			}
@@ -400,7 +402,35 @@ func canonErr(err error) string {
 	if c, ok := codeOfErr(err); ok {
 		return strconv.Itoa(c)
 	}
+	if errors.Is(err, syscall.EFBIG) {
+		return strconv.Itoa(writeFaultCode)
+	}
 	return "other"
+}
+
+// writeFaultCode is how a failed write of the staging file shows in the
+// canonical result: the model lets the fault reach Create as the failed read of
+// the TeeReader (driver op createw).
+const writeFaultCode = 950
+
+// withFileSizeLimit runs f while no file of this process can grow beyond limit
+// bytes (RLIMIT_FSIZE): a write beyond it fails with EFBIG, as on a full disk
+// or an exceeded quota.  SIGXFSZ is ignored for the whole run (see main).
+func withFileSizeLimit(limit uint64, f func()) bool {
+	var old syscall.Rlimit
+	if err := syscall.Getrlimit(syscall.RLIMIT_FSIZE, &old); err != nil {
+		return false
+	}
+	if old.Max != ^uint64(0) && limit > old.Max {
+		return false
+	}
+	lim := syscall.Rlimit{Cur: limit, Max: old.Max}
+	if err := syscall.Setrlimit(syscall.RLIMIT_FSIZE, &lim); err != nil {
+		return false
+	}
+	defer syscall.Setrlimit(syscall.RLIMIT_FSIZE, &old)
+	f()
+	return true
 }
 
 // create runs one Create call; the result is canonical: "ok <key>", "err <code>", "panic".
@@ -576,6 +606,60 @@ func (c *ctx) runOp(line string) string {
 			objsOf := func(l string) string { return l[:strings.LastIndex(l, " tmp=")] }
 			if ending == 'x' && objsOf(after) != objsOf(before) {
 				c.fail("failed-create-leaves-object", "a Create whose input failed changed the object listing: "+clip(before)+" -> "+clip(after))
+			}
+		}
+		return res
+	case "createw":
+		// createw fs limit=<n> <script>: Create while the staging file cannot grow beyond n bytes
+		if len(ws) != 4 || ws[1] != "fs" {
+			return "bad-op"
+		}
+		limS, ok1 := kvGet(ws, "limit")
+		limit, err1 := strconv.ParseUint(limS, 10, 63)
+		script, ok2 := parseScript(ws[3])
+		st := c.store("fs")
+		if !ok1 || err1 != nil || !ok2 || st == nil {
+			return "bad-op"
+		}
+		content, ending, _ := scriptOutcome(script)
+		if ending != 'e' {
+			return "bad-op"
+		}
+		before := c.showListing()
+		var res string
+		c.j.Risky(line)
+		if !withFileSizeLimit(limit, func() { res = doCreate(st, &scriptReader{s: script}) }) {
+			c.j.Clear()
+			return "no-rlimit"
+		}
+		c.j.Clear()
+		after := c.showListing()
+		key := shaHex(content)
+		if !strings.HasSuffix(after, "tmp=[]") {
+			c.fail("write-fault-leaves-temp-file", fmt.Sprintf("after a Create under a file size limit of %d (content %d bytes, result %s) the temp directory is not empty: %s",
+				limit, len(content), clip(res), clip(after)))
+		}
+		objsOf := func(l string) string { return l[:strings.LastIndex(l, " tmp=")] }
+		switch {
+		case strings.HasPrefix(res, "ok "):
+			got := doOpen(st, strings.TrimPrefix(res, "ok "))
+			if res != "ok "+key || got != "ok "+hx.Hex(content) {
+				n := -1
+				if strings.HasPrefix(got, "ok ") {
+					n = len(hx.UnHex(strings.TrimPrefix(got, "ok ")))
+				}
+				c.fail("create-ok-but-truncated-on-write-fault", fmt.Sprintf(
+					"the staging file could not grow beyond %d bytes, Create of %d bytes returned %s (sha256 of the content: %s), but Open of that key yields %d bytes that are not the content",
+					limit, len(content), clip(res), key, n))
+			}
+		case res == "panic":
+			c.fail("create-panics-on-write-fault", "Create panicked when the staging file hit the size limit")
+		default:
+			if objsOf(after) != objsOf(before) {
+				c.fail("write-fault-leaves-object", "a Create that failed on a write fault changed the object listing: "+clip(before)+" -> "+clip(after))
+			}
+			if uint64(len(content)) <= limit {
+				c.fail("create-fails-without-fault", fmt.Sprintf("Create of %d bytes failed (%s) although the file size limit %d was not reached", len(content), res, limit))
 			}
 		}
 		return res
@@ -1213,6 +1297,82 @@ func (g *gen) errorValues(maxLen int) {
 	}
 }
 
+// writeFaults: the file-write fault axis.  The staging file of a Create may not
+// grow beyond `limit` bytes (RLIMIT_FSIZE, in-process, SIGXFSZ ignored), for
+// every limit in a window around the content length and around the 4096-byte
+// block boundaries, content sizes around 4096*k +- a few and well inside and
+// outside one block, input pieces of 7 / 700 / everything at once.  Required:
+// Create returns an error and leaves nothing, or the key opens to exactly the
+// content.
+func (g *gen) writeFaults(thorough bool) {
+	rep := g.c.rep
+	sizes := []int{1, 100, 4095, 4097, 6000, 8193}
+	if thorough {
+		sizes = []int{1, 2, 100, 1000, 4093, 4094, 4095, 4096, 4097, 4098, 4099, 6000, 8190, 8191, 8192, 8193, 8194, 10000, 12287, 12288, 12289, 20000, 70000}
+	}
+	noRlimit := false
+	for _, size := range sizes {
+		content := g.content(size)
+		lims := map[int]bool{0: true, 1: true, size / 2: true, 4095: true, 4096: true, 4097: true, 8192: true}
+		for d := -4; d <= 2; d++ {
+			lims[size+d] = true
+			lims[size-4096+d] = true
+			lims[(size/4096)*4096+d] = true
+		}
+		if thorough {
+			for d := -40; d <= 4; d++ {
+				lims[size+d] = true
+			}
+			lims[size-1024] = true
+			lims[size-2048] = true
+		}
+		var ord []int
+		for l := range lims {
+			if l >= 0 && l <= size+2 {
+				ord = append(ord, l)
+			}
+		}
+		sort.Ints(ord)
+		for _, piece := range []int{7, 700, 1 << 20} {
+			if piece == 7 && size > 5000 {
+				continue
+			}
+			var base []item
+			for off := 0; off < size; off += piece {
+				e := off + piece
+				if e > size {
+					e = size
+				}
+				base = append(base, item{data: content[off:e], flag: 'n'})
+			}
+			sep := append(append([]item{}, base...), item{flag: 'e'})
+			tog := append([]item{}, base...)
+			tog[len(tog)-1].flag = 'e'
+			for i, l := range ord {
+				s := sep
+				if i%2 == 1 {
+					s = tog
+				}
+				// a fresh store: the fault must strike the first copy of the content
+				g.emit("reset")
+				line := withSha(fmt.Sprintf("createw fs limit=%d %s", l, showScript(s)), s)
+				out := g.emit(line)
+				g.emit("list fs")
+				g.emit("open fs " + keyHex(shaHex(content)))
+				rep.Count("write-fault:" + strings.Fields(out + " x")[0])
+				rep.Case(fmt.Sprintf("createw size=%d piece=%d limit=%d", size, piece, l), true)
+				if out == "no-rlimit" {
+					noRlimit = true
+				}
+			}
+		}
+	}
+	rep.Count("write-fault-sizes:" + strconv.Itoa(len(sizes)))
+	if noRlimit {
+		rep.Note("RLIMIT_FSIZE could not be set in this environment: the file-write fault axis did not run")
+	}
+}
+
 func (g *gen) randomScript(content []byte, maxChunk int, failAt int) []item {
 	var s []item
 	off := 0
@@ -1612,6 +1772,9 @@ func (g *gen) keysAndStore() {
 // ---------------------------------------------------------------- main
 
 func main() {
+	// a write beyond RLIMIT_FSIZE (op createw) raises SIGXFSZ, which would kill
+	// the process; ignored, the write system call just fails with EFBIG
+	signal.Ignore(syscall.SIGXFSZ)
 	f := hx.ParseFlags()
 	rep := hx.NewReport("C18", f)
 	work := f.Work
@@ -1658,6 +1821,7 @@ func main() {
 			timed("keys+store", g.keysAndStore)
 			timed("fault enumeration (len<=10)", func() { g.faultEnumeration(10) })
 			timed("error values (len<=6)", func() { g.errorValues(6) })
+			timed("file-write faults (RLIMIT_FSIZE)", func() { g.writeFaults(true) })
 			timed("big contents", func() { g.bigContents(400) })
 			timed("gated interleavings", func() { g.gated(45000, true) })
 			timed("concurrent rounds", func() { g.concurrent(650, 16); g.concurrent(80, 64) })
@@ -1666,6 +1830,7 @@ func main() {
 			timed("keys+store", g.keysAndStore)
 			timed("fault enumeration (len<=7)", func() { g.faultEnumeration(7) })
 			timed("error values (len<=3)", func() { g.errorValues(3) })
+			timed("file-write faults (RLIMIT_FSIZE)", func() { g.writeFaults(false) })
 			timed("big contents", func() { g.bigContents(114) })
 			timed("gated interleavings", func() { g.gated(2500, true) })
 			timed("concurrent rounds", func() { g.concurrent(60, 16); g.concurrent(4, 64) })
